@@ -4,7 +4,7 @@ EXTENDS CacheConc
 P2 == { <<a, b>> : a \in Ops, b \in Ops }
 P1 == { <<a>> : a \in Ops }
 \* programs of three operations from the operations that differ in lock discipline
-Core == {"ListDevices", "InjectDevices", "Refresh", "Configure", "GetErrors", "GetSpecDirErrors", "WriteSpec"}
+Core == {"ListDevices", "InjectDevices", "Refresh", "Configure", "NewCache", "GetErrors", "GetSpecDirErrors", "WriteSpec"}
 P2core == { <<a, b>> : a \in Core, b \in Core }
 P3 == { <<a, b, c>> : a \in Core, b \in Core, c \in Core }
 =============================================================================
